@@ -36,6 +36,17 @@ Theorem C11_greg_of_days_spec : forall y m d, -32767 <= y <= 32767 -> date_exist
 Proof. exact days_greg. Qed.
 Print Assumptions C11_greg_of_days_spec.
 
+(* last-day-of-month is the length of the month measured in sys_days: from the first of the month
+   to the first of the following month (year_month + months{1}); likewise the length of a year *)
+Theorem C11_last_day_is_month_length : forall y m, 1 <= m <= 12 ->
+  let '(y', m') := year_month_plus_spec y m 1 in days_spec y' m' 1 - days_spec y m 1 = dim y m.
+Proof. exact month_length. Qed.
+Print Assumptions C11_last_day_is_month_length.
+
+Theorem C11_year_length : forall y, days_spec (y + 1) 1 1 - days_spec y 1 1 = 365 + (if leap y then 1 else 0).
+Proof. exact year_length. Qed.
+Print Assumptions C11_year_length.
+
 (** * year_month_day +/- months, +/- years: no clamping, ok() afterwards = the date exists *)
 Theorem C11_ymd_plus_months : forall y m d dm,
   -32767 <= y <= 32767 -> 1 <= m <= 12 -> 0 <= d <= 255 -> -2147483647 <= dm <= 2147483647 ->
